@@ -22,6 +22,16 @@ PROPS = {
         "assumptions": ROUTER_ASSUMPTIONS,
         "min_outcomes": 6,
     },
+    "C02": {
+        "level": "exploration",
+        "technique": "deviation-bounded exhaustive enumeration of request byte strings (0, 1, 2 departures from well-formed) through the real Request::read and every public accessor, against an independent reference parser of the supported subset; stalls are decided by a counting-waker executor, not timed",
+        "engine": "vmc",
+        "level_text": "Bounded exhaustive exploration of the input space organised by deviations: deviation 0 = the full product of menus (methods x 12 targets x ordered selections of 0..2 (quick) / 0..3 (thorough) header lines from a 13-line menu covering canonical/lower/mixed-case standard names, custom names in two cases, repeated names, empty and odd values x bodies incl. NUL-leading ones and bodies ending exactly at / one past the 1 KiB buffer, plus heads ending within one byte of the buffer); deviation 1 = each of 36 structural edits and every truncation point; deviation 2 (thorough) = pairs on a reduced base set. Every byte string is the first read of a fresh connection through the real parser; accepted requests have every accessor called under catch_unwind; refusals are serialized by the real send and re-parsed.",
+        "level_note": "Trusted: the reference parser of the subset (refmodel/httpreq.rs, unit-tested), which decides complete / incomplete / invalid; the scripted reader models one read(2) returning min(available, buffer) bytes and then nothing. Whitespace around values, equal duplicate Content-Length, leading-zero lengths and heads larger than the buffer are counted as ambiguous. Byte values outside the menus and requests arriving in several reads (C06) are not covered here.",
+        "jobs": {"quick": 16, "thorough": 16},
+        "assumptions": COMMON_ASSUMPTIONS + ["the whole byte string is handed over by the first read; afterwards the reader answers Pending without registering a waker"],
+        "min_outcomes": 8,
+    },
     "C03": {
         "level": "model_checking",
         "technique": "breadth-first exploration of all operation histories on the real Response object up to a depth, with state merging only on the fingerprint of the implementation's complete state; every reached state is serialized by the real send and re-parsed by an independent HTTP parser, compared with a reference model of the history",
